@@ -149,7 +149,10 @@ def segment_at(unit, line):
 
 def run_verus(unit, rlimit=None, timeout=900, extra=None):
     cmd = ['verus', '--edition', '2024', '--triggers-mode', 'silent', '--error-format=json',
-           '--output-json', '--time', '--num-threads', os.environ.get('VERIF_VERUS_THREADS', '8')]
+           '--output-json', '--time', '--num-threads', os.environ.get('VERIF_VERUS_THREADS', '8'),
+           # Verus stops after 2 failed obligations per function by default: the two known findings in eval_node would hide
+           # any further failure of that function
+           '--multiple-errors', '5']
     if rlimit:
         cmd += ['--rlimit', str(rlimit)]
     if extra:
@@ -210,6 +213,14 @@ def run_verus(unit, rlimit=None, timeout=900, extra=None):
             for sp in spans:
                 if sp['segment']:
                     owner = (sp['segment'], sp['segment_kind'])
+                    break
+        if owner is None and prim is not None:
+            # a failing proof function of the specification layer: name it (the two known findings are such named obligations)
+            ulines = unit.text.split('\n')
+            for ln in range(min(prim['line_start'], len(ulines)) - 1, max(prim['line_start'] - 400, -1), -1):
+                mm = re.match(r'^\s*(?:pub\s+)?(?:broadcast\s+)?proof\s+fn\s+(\w+)', ulines[ln])
+                if mm:
+                    owner = (mm.group(1), 'lemma')
                     break
         entry['owner'] = owner[0] if owner else None
         entry['owner_kind'] = owner[1] if owner else None
